@@ -267,7 +267,7 @@ func init() {
 				L = r.intn(600)
 			}
 			decl := L
-			ty, ver := byte(22), uint16(0x0301+r.intn(3))
+			ty, ver := byte(22), uint16(0x0300+r.intn(5))
 			kind := "random-valid"
 			switch r.intn(12) {
 			case 0:
